@@ -13,7 +13,7 @@ Check (C01_view_decision_is_exact) : (forall d h, ss d h = true <-> SS d h).
 Print Assumptions C01_view_decision_is_exact.
 Check (C01_quiescent_remote_is_current) : (forall init ops r x b, let p := pexec (pipe0 init) ops in aget r (p_rems p) = Some x -> vl_dirty (p_lane p) = false -> v_home (r_up x) = true -> r_owed x = Some b -> last_opt (events_of (r_sent x)) = Some (vl_content (p_lane p))).
 Print Assumptions C01_quiescent_remote_is_current.
-Check (C01_linked_remote_converges) : (forall init ops1 ops2 r, let p1 := pexec (pipe0 init) ops1 in let p2 := pexec (pipe0 init) (ops1 ++ ops2) in Owes r p1 -> Forall (fun o => o <> PUnlink r) ops2 -> vl_dirty (p_lane p2) = false -> forall x, aget r (p_rems p2) = Some x -> v_home (r_up x) = true -> last_opt (events_of (r_sent x)) = Some (vl_content (p_lane p2))).
+Check (C01_linked_remote_converges) : (forall init ops1 ops2 r, let p1 := pexec (pipe0 init) ops1 in let p2 := pexec (pipe0 init) (ops1 ++ ops2) in Owes r p1 -> Forall (fun o => o <> PUnlink r /\ o <> PStopAll) ops2 -> vl_dirty (p_lane p2) = false -> forall x, aget r (p_rems p2) = Some x -> v_home (r_up x) = true -> last_opt (events_of (r_sent x)) = Some (vl_content (p_lane p2))).
 Print Assumptions C01_linked_remote_converges.
 Check (C01_owes_witness) : (Owes 1 (pexec (pipe0 [48]) [PAdd 1; PLink 1; PSet [53]])).
 Print Assumptions C01_owes_witness.
